@@ -20,17 +20,32 @@ const QUICK_X: u64 = 10;
 const THOROUGH_X: u64 = 10;
 
 fn b(name: &'static str, f: fn(), quick: u64, thorough: u64) -> Batch {
-    Batch { name, f, quick: quick * QUICK_X, thorough: thorough * THOROUGH_X, heavy: false, grid: 0 }
+    Batch { name, f, quick: quick * QUICK_X, thorough: thorough * THOROUGH_X, heavy: false, grid: 0, classes: &[] }
 }
 fn grid(name: &'static str, f: fn(), cells: u64, quick_rounds: u64, thorough_rounds: u64) -> Batch {
-    Batch { name, f, quick: cells * quick_rounds * 3, thorough: cells * thorough_rounds * 3, heavy: false, grid: cells }
+    Batch { name, f, quick: cells * quick_rounds * 3, thorough: cells * thorough_rounds * 3, heavy: false, grid: cells, classes: &[] }
 }
+impl Batch {
+    /// Borrowed scenario: only these classes are judged (see `runner::Batch::classes`).
+    fn only(mut self, classes: &'static [&'static str]) -> Batch {
+        self.classes = classes;
+        self
+    }
+}
+
+/// Chain formation and descriptor ownership as the device-side observer sees them (C01).
+const CHAIN_CLASSES: &[&str] = &["chain-malformed", "descriptor-shared", "ring-slot-reused", "avail-idx-jump", "inflight-descriptor-modified", "inflight-ring-slot-modified", "device-fetch"];
+/// Platform sharing ledger (C04).
+const SHARE_CLASSES: &[&str] = &["unshare-mismatch", "unshare-while-posted", "share-empty", "share-direction-both", "share-leaked", "device-mem-fault"];
+/// Notification suppression in both directions (C05).
+const NOTIFY_CLASSES: &[&str] = &["lost-notification", "interrupt-not-armed", "used-event-not-rearmed", "event-idx-not-negotiated", "wait-never-ends"];
+
 fn heavy(name: &'static str, f: fn(), quick: u64, thorough: u64) -> Batch {
-    Batch { name, f, quick: quick * 3, thorough: thorough * 3, heavy: true, grid: 0 }
+    Batch { name, f, quick: quick * 3, thorough: thorough * 3, heavy: true, grid: 0, classes: &[] }
 }
 /// Multi-GiB runs: counts are taken literally.
 fn heavy1(name: &'static str, f: fn(), quick: u64, thorough: u64) -> Batch {
-    Batch { name, f, quick, thorough, heavy: true, grid: 0 }
+    Batch { name, f, quick, thorough, heavy: true, grid: 0, classes: &[] }
 }
 
 pub fn spec(id: &str) -> Option<Spec> {
@@ -39,7 +54,11 @@ pub fn spec(id: &str) -> Option<Spec> {
             id: "C01",
             level: "exploration",
             rule: "seeded histories of add/complete/pop on VirtQueue (size, indirect, event-idx, access-platform, legacy layout, device policy drawn per run); distinct = distinct event-log hash; non-trivial = at least 2 chains outstanding at a publication after more than SIZE submissions (descriptors recycled, free list permuted) or a completion consumed out of submission order",
-            batches: vec![b("history", scen::queue::history, 6000, 120_000), heavy("wrap", scen::queue::wrap_history, 16, 96)],
+            batches: vec![
+                b("history", scen::queue::history, 6000, 30_000),
+                heavy("wrap", scen::queue::wrap_history, 16, 96),
+                grid("drivers", scen::c08::run, scen::c08::GRID, 15, 600).only(CHAIN_CLASSES),
+            ],
             extras: vec![],
             assumptions: vec!["device observes memory only at store-hook granularity (sequentially consistent)", "sampling of histories, not enumeration"],
             real: REAL_QUEUE.to_vec(),
@@ -49,7 +68,7 @@ pub fn spec(id: &str) -> Option<Spec> {
             id: "C02",
             level: "exploration",
             rule: "same histories as C01; the observer validates, at every store hook, every entry below the available index read from device-visible memory; non-trivial as C01",
-            batches: vec![b("history", scen::queue::history, 6000, 120_000), heavy("wrap", scen::queue::wrap_history, 8, 64)],
+            batches: vec![b("history", scen::queue::history, 6000, 30_000), heavy("wrap", scen::queue::wrap_history, 8, 64)],
             extras: vec![],
             assumptions: vec!["native engine is sequentially consistent at store granularity; release/fence semantics are covered by the Miri engine (check script)", "non-coherent DMA is not modelled"],
             real: REAL_QUEUE.to_vec(),
@@ -60,8 +79,8 @@ pub fn spec(id: &str) -> Option<Spec> {
             level: "exploration",
             rule: "same histories; reference model (outstanding map, used FIFO, free count) checked after every operation; wrap batch runs > 65536 submissions; non-trivial as C01",
             batches: vec![
-                b("history", scen::queue::history, 6000, 120_000),
-                b("history_faulty", scen::queue::history_faulty, 3000, 60_000),
+                b("history", scen::queue::history, 6000, 30_000),
+                b("history_faulty", scen::queue::history_faulty, 3000, 20_000),
                 heavy("wrap", scen::queue::wrap_history, 32, 256),
             ],
             extras: vec![],
@@ -74,9 +93,12 @@ pub fn spec(id: &str) -> Option<Spec> {
             level: "exploration",
             rule: "same histories; SimHal ledger invariants online (share once / unshare once, exact arguments, device address returned by share, no share on refusal, device accesses only live shares/DMA in permitted direction, data appears at consumption); non-trivial as C01",
             batches: vec![
-                b("history", scen::queue::history, 6000, 120_000),
-                b("history_faulty", scen::queue::history_faulty, 3000, 60_000),
+                b("history", scen::queue::history, 6000, 30_000),
+                b("history_faulty", scen::queue::history_faulty, 3000, 20_000),
                 heavy("wrap", scen::queue::wrap_history, 8, 64),
+                b("drivers_blk", scen::c14::honest, 1500, 60_000).only(SHARE_CLASSES),
+                b("drivers_sound", scen::c20::sound_run, 1500, 60_000).only(SHARE_CLASSES),
+                b("drivers_gpu", scen::c20::gpu_run, 1000, 40_000).only(SHARE_CLASSES),
             ],
             extras: vec![],
             assumptions: vec!["platform layer always bounces (device address never equals virtual address)"],
@@ -88,10 +110,11 @@ pub fn spec(id: &str) -> Option<Spec> {
             level: "exploration",
             rule: "histories with should_notify compared against vring_need_event / used.flags after batches of submissions, avail.flags / used_event checked from the device side, blocking helper under every device policy with busy-wait supervision; non-trivial = a blocking wait that actually spun, or a history that is non-trivial per C01",
             batches: vec![
-                b("history", scen::queue::history, 4000, 80_000),
+                b("history", scen::queue::history, 4000, 30_000),
                 b("blocking", scen::queue::blocking_history, 4000, 80_000),
                 b("owning", scen::c19::owning_honest, 3000, 60_000),
                 heavy("wrap", scen::queue::wrap_history, 48, 512),
+                grid("drivers", scen::c08::run, scen::c08::GRID, 15, 600).only(NOTIFY_CLASSES),
             ],
             extras: vec![Extra { name: "should_notify_sweep", f: scen::queue::notify_sweep }],
             assumptions: vec!["liveness bound: 4 idle device opportunities", "interrupts are not delivered asynchronously (library installs no handlers)"],
@@ -102,7 +125,7 @@ pub fn spec(id: &str) -> Option<Spec> {
             id: "C06",
             level: "exploration",
             rule: "grid of 16 queue sizes x {modern, legacy} x 8 flag combinations x 5 transport answers (free, in use, max=SIZE, max=SIZE/2, max=0) = 1280 cells, each cell visited in every round (run i -> cell i mod 1280; exhaustive for the grid), seed varies DMA placement, queue index and second-allocation failure; distinct = distinct event-log hash; non-trivial = creation succeeded (full layout oracle ran) or failed at the second allocation",
-            batches: vec![grid("grid", scen::c06::grid_run, scen::c06::GRID, 3, 40)],
+            batches: vec![grid("grid", scen::c06::grid_run, scen::c06::GRID, 3, 200)],
             extras: vec![],
             assumptions: vec!["real MMIO/PCI transports are covered by C10/C11 scenarios; here the transport is the model transport"],
             real: vec!["virtio_drivers::queue::VirtQueue::new, VirtQueueLayout::allocate_legacy/allocate_flexible, queue_part_sizes, Dma::new/Drop"],
@@ -112,7 +135,7 @@ pub fn spec(id: &str) -> Option<Spec> {
             id: "C10",
             level: "exploration",
             rule: "random operation sequences (every Transport method, random queue index / size / 64-bit address triple / feature word / status / interrupt status) on the real MmioTransport and SomeTransport::Mmio over a register-level reference device, legacy and modern, with QueueReady clearing up to 3 reads late; random header words and region sizes at probe time; distinct = distinct event-log hash; non-trivial = at least one queue_set executed (ops batch) or an acceptable header (probe batch)",
-            batches: vec![b("ops", scen::c10::ops_run, 20_000, 400_000), b("probe", scen::c10::probe_run, 20_000, 400_000)],
+            batches: vec![b("ops", scen::c10::ops_run, 20_000, 1_500_000), b("probe", scen::c10::probe_run, 20_000, 1_500_000)],
             extras: vec![],
             assumptions: vec!["register semantics transcribed from VirtIO 1.2 section 4.2.2 / 4.2.4 (DESIGN appendix A)", "DRIVER_OK is never set in this scenario; queue addresses are arbitrary numbers"],
             real: vec!["virtio_drivers::transport::mmio::MmioTransport (all Transport methods, new, Drop)", "virtio_drivers::transport::SomeTransport (Mmio variant)", "safe-mmio field!/read/write paths (through the custom-mmio seam)"],
@@ -122,7 +145,7 @@ pub fn spec(id: &str) -> Option<Spec> {
             id: "C14",
             level: "exploration",
             rule: "seeded histories on VirtIOBlk (blocking read/write/flush/device_id with nothing outstanding; non-blocking reads/writes with several outstanding, completed in the order the device chose) over model / MMIO legacy+modern / PCI transports, sectors over the full u64 range, features drawn per run; honest and error-status batches separate; non-trivial = at least two non-blocking requests outstanding together",
-            batches: vec![b("honest", scen::c14::honest, 6000, 150_000), b("faulty", scen::c14::faulty, 4000, 100_000)],
+            batches: vec![b("honest", scen::c14::honest, 6000, 500_000), b("faulty", scen::c14::faulty, 4000, 300_000), b("capacity_cfg", scen::c13::torn_blk, 2000, 100_000)],
             extras: vec![],
             assumptions: vec!["blocking calls are only issued with nothing else outstanding (documented precondition of add_notify_wait_pop)"],
             real: vec!["virtio_drivers::device::blk::VirtIOBlk", "VirtQueue, Transport::begin_init/finish_init/read_consistent", "MmioTransport / PciTransport (when drawn)"],
@@ -133,10 +156,10 @@ pub fn spec(id: &str) -> Option<Spec> {
             level: "exploration",
             rule: "OwningQueue (6 SIZE x BUFFER_SIZE shapes, handler succeeding / declining / failing), VirtIOInput::pop_pending_event and VirtIOSound::latest_notification against an event-source device that completes posted buffers in scheduler-chosen order, in bursts, with written lengths 0..BUFFER_SIZE; non-trivial = more events than the queue size were delivered and the stock level returned to the queue size",
             batches: vec![
-                b("owning", scen::c19::owning_honest, 6000, 150_000),
-                b("owning_lying", scen::c19::owning_lying, 2000, 50_000),
-                b("input", scen::c19::input_run, 3000, 80_000),
-                b("sound_events", scen::c19::sound_run, 2000, 50_000),
+                b("owning", scen::c19::owning_honest, 6000, 400_000),
+                b("owning_lying", scen::c19::owning_lying, 2000, 150_000),
+                b("input", scen::c19::input_run, 3000, 250_000),
+                b("sound_events", scen::c19::sound_run, 2000, 150_000),
             ],
             extras: vec![],
             assumptions: vec!["VirtIOSocket's receive path is exercised by the C17/C18 scenarios"],
@@ -147,7 +170,7 @@ pub fn spec(id: &str) -> Option<Spec> {
             id: "C15",
             level: "exploration",
             rule: "seeded interleavings of device input chunks (1..4096 bytes), recv(peek), recv(pop), read, fill_buf+consume, read_ready, ack_interrupt, send/send_bytes/write/write_str, size/emergency_write on VirtIOConsole over model/MMIO/PCI transports; the device fills the posted buffer at scheduler-chosen moments (between calls, inside notify, at store and spin points); non-trivial = at least one blocking read returned data",
-            batches: vec![b("stream", scen::c15::run, 8000, 200_000)],
+            batches: vec![b("stream", scen::c15::run, 8000, 500_000)],
             extras: vec![],
             assumptions: vec!["blocking reads are only issued while the device still has bytes to deliver or the driver holds unread bytes", "read_ready/recv polling alone never re-posts a drained buffer: recorded as an observation, not part of the statement"],
             real: vec!["virtio_drivers::device::console::VirtIOConsole incl. embedded-io Read/BufRead/ReadReady/Write and fmt::Write", "VirtQueue"],
@@ -157,7 +180,7 @@ pub fn spec(id: &str) -> Option<Spec> {
             id: "C16",
             level: "exploration",
             rule: "seeded sequences of sends, receives and recycles on VirtIONetRaw (caller-owned buffers, non-blocking transmit/receive in any completion order) and VirtIONet (QUEUE_SIZE 8 managed buffers), frames of every length from 0 to the buffer size (boundary biased), device picks any posted buffer and burst size, with and without VERSION_1 (12- vs 10-byte header); non-trivial = a receive completed out of posting order (raw) or more than QUEUE_SIZE frames received and all buffers back with the device (managed)",
-            batches: vec![b("raw", scen::c16::raw_run, 6000, 150_000), b("managed", scen::c16::buf_run, 6000, 150_000)],
+            batches: vec![b("raw", scen::c16::raw_run, 6000, 400_000), b("managed", scen::c16::buf_run, 6000, 400_000)],
             extras: vec![],
             assumptions: vec!["MRG_RXBUF is offered in some runs but never accepted by the driver, so one buffer per frame"],
             real: vec!["virtio_drivers::device::net::{VirtIONetRaw, VirtIONet, RxBuffer, TxBuffer}", "VirtQueue"],
@@ -168,15 +191,16 @@ pub fn spec(id: &str) -> Option<Spec> {
             level: "exploration",
             rule: "seeded operation sequences with arbitrary parameters on VirtIOGpu (resolution, framebuffer setup/teardown, flush, cursor, EDID with random 1024-byte blobs), VirtIOSound (info, set_params, prepare/start/stop/release, jack remap, blocking and non-blocking playback with completions in order within a stream), VirtIORng, VirtIORtc and VirtIO9p over model/MMIO/PCI transports; success batches and error-response batches are separate; non-trivial per batch: a framebuffer was set up / playback longer than the queue / entropy returned / a capability decoded / a 9P response returned",
             batches: vec![
-                b("gpu", scen::c20::gpu_run, 4000, 100_000),
-                b("gpu_faulty", scen::c20::gpu_faulty, 3000, 60_000),
-                b("sound", scen::c20::sound_run, 4000, 100_000),
-                b("sound_faulty", scen::c20::sound_faulty, 3000, 60_000),
-                b("rng", scen::c20::rng_run, 2000, 40_000),
-                b("rtc", scen::c20::rtc_run, 2000, 40_000),
-                b("rtc_faulty", scen::c20::rtc_faulty, 2000, 40_000),
-                b("9p", scen::c20::p9_run, 2000, 40_000),
-                b("9p_faulty", scen::c20::p9_faulty, 2000, 40_000),
+                b("gpu", scen::c20::gpu_run, 4000, 250_000),
+                b("gpu_faulty", scen::c20::gpu_faulty, 3000, 200_000),
+                b("sound", scen::c20::sound_run, 4000, 250_000),
+                b("sound_faulty", scen::c20::sound_faulty, 3000, 200_000),
+                b("rng", scen::c20::rng_run, 2000, 150_000),
+                b("rtc", scen::c20::rtc_run, 2000, 150_000),
+                b("rtc_faulty", scen::c20::rtc_faulty, 2000, 150_000),
+                b("9p", scen::c20::p9_run, 2000, 150_000),
+                b("9p_faulty", scen::c20::p9_faulty, 2000, 150_000),
+                b("9p_tag_cfg", scen::c13::torn_9p, 2000, 100_000),
             ],
             extras: vec![],
             assumptions: vec!["resolutions bounded (<= 128x128) so that width*height*4 stays far below 2^32 and allocations stay small", "after a device error the run ends (driver state after an error is outside the statement)", "EDID decoding is a pure function; it is covered here only as part of device responses"],
@@ -213,7 +237,7 @@ pub fn spec(id: &str) -> Option<Spec> {
             id: "C08",
             level: "exploration",
             rule: "grid of 11 drivers x 8 transport kinds (model, model-legacy, model-PCI-like, real MMIO modern/legacy, SomeTransport::Mmio, real PCI, SomeTransport::Pci) visited in every round; offered feature set drawn per run (0, all ones, single bits, VERSION_1 only, random 64-bit, random biased to bits 0-40); ordered seam log of construction checked, then a usage script judged by the reference device for the negotiated features; non-trivial = construction and usage succeeded",
-            batches: vec![grid("handshake", scen::c08::run, scen::c08::GRID, 60, 1500)],
+            batches: vec![grid("handshake", scen::c08::run, scen::c08::GRID, 60, 6000)],
             extras: vec![],
             assumptions: vec!["HypPciTransport (x86-64 hypercalls) cannot run in user space and is excluded", "legacy transports never offer VERSION_1"],
             real: vec!["every driver's new(), Transport::begin_init/finish_init", "MmioTransport, PciTransport, SomeTransport", "VirtQueue"],
@@ -223,7 +247,7 @@ pub fn spec(id: &str) -> Option<Spec> {
             id: "C09",
             level: "fault_enumeration",
             rule: "fault enumeration: grid of 11 drivers x 8 transport kinds x k = 1..14 where the k-th DMA allocation of construction + usage script (incl. GPU framebuffer and cursor setup) fails, every cell visited in every round (k beyond the number of allocations = fault-free run); plus seeded drop-at-a-random-point histories with requests outstanding on every transport kind, and construction failing on malformed configuration space; non-trivial = the injected failure was reached and reported (grid) / the history ran and the driver was dropped (drop) / construction failed (bad config)",
-            batches: vec![grid("alloc_fail", scen::c09::alloc_fail, scen::c09::GRID, 3, 40), b("drop_anywhere", scen::c09::drop_anywhere, 6000, 150_000), b("bad_config", scen::c09::bad_config, 2000, 50_000)],
+            batches: vec![grid("alloc_fail", scen::c09::alloc_fail, scen::c09::GRID, 3, 40), b("drop_anywhere", scen::c09::drop_anywhere, 6000, 75_000), b("bad_config", scen::c09::bad_config, 2000, 50_000)],
             extras: vec![],
             assumptions: vec!["a device reset includes the reset every in-tree transport performs in its own Drop", "HypPciTransport excluded", "heap watch covers up to 256 posted buffers at a time"],
             real: vec!["every driver's new() and Drop, Dma::new/Drop, VirtQueue::new, OwningQueue::new/Drop", "MmioTransport / PciTransport / SomeTransport Drop (device reset)"],
@@ -233,7 +257,7 @@ pub fn spec(id: &str) -> Option<Spec> {
             id: "C13",
             level: "exploration",
             rule: "bounds: real MmioTransport / PciTransport / SomeTransport, window sizes 0..256 bytes (PCI: capability present or absent), access types of 1, 2, 3, 4, 6, 8, 16 bytes, offsets boundary-biased up to usize::MAX (window-size, window-size+align, usize::MAX-k, powers of two), reads and writes; expected outcome computed in u128; torn reads: a configuration agent may install the next of up to 4 self-identifying configuration versions (and bump the generation) at every configuration access while blk capacity, vsock CID, console size, MAC and 9P mount tag are read over model / modern MMIO / PCI transports; non-trivial = an in-window access succeeded (bounds) / the configuration changed at least once during the read (torn)",
-            batches: vec![b("bounds", scen::c13::bounds, 10_000, 300_000), b("torn", scen::c13::torn, 10_000, 300_000)],
+            batches: vec![b("bounds", scen::c13::bounds, 10_000, 1_500_000), b("torn", scen::c13::torn, 10_000, 1_500_000)],
             extras: vec![],
             assumptions: vec!["legacy MMIO has no configuration generation: torn-read freedom is not claimed there", "the PCI transport rounds the window down to whole 32-bit words: accesses between the rounded and the real end may fail"],
             real: vec!["MmioTransport / PciTransport / SomeTransport read_config_space, write_config_space, read_config_generation", "Transport::read_consistent", "read_config! users: VirtIOBlk::new, VirtIOSocket::new, VirtIOConsole::size, VirtIONetRaw::new, VirtIO9p::new"],
@@ -244,10 +268,10 @@ pub fn spec(id: &str) -> Option<Spec> {
             level: "exploration",
             rule: "stateful reference PCI function behind ConfigurationAccess (direct) and behind the real MmioCam (CAM and ECAM over the MMIO seam): BAR layouts drawn per run (none / memory 32 / below 1 MiB / memory 64 incl. sizes 2^32..2^63 / I/O / reserved type / 64-bit type in slot 5, prefetchable or not, assigned or not) with every initial command value 0..0x7ff, probed through bars() or per-slot bar_info(); seeded configuration addresses; seeded bus populations; seeded well-formed capability lists; cam_offset swept completely (exhaustive sub-space); non-trivial = a result was compared and matched",
             batches: vec![
-                b("bars", scen::c12::bars_run, 20_000, 500_000),
-                b("addressing", scen::c12::addressing_run, 5000, 100_000),
-                b("enumerate", scen::c12::enumerate_run, 3000, 60_000),
-                b("capabilities", scen::c12::caps_run, 8000, 150_000),
+                b("bars", scen::c12::bars_run, 20_000, 1_000_000),
+                b("addressing", scen::c12::addressing_run, 5000, 500_000),
+                b("enumerate", scen::c12::enumerate_run, 3000, 200_000),
+                b("capabilities", scen::c12::caps_run, 8000, 600_000),
             ],
             extras: vec![Extra { name: "cam_offset_sweep", f: scen::c12::cam_sweep }],
             assumptions: vec!["cyclic capability lists are outside the statement and are not generated", "BARs with type bits but no writable address bits are not generated (an existing unit test pins the current result, so the intended semantics is ambiguous)"],
@@ -258,7 +282,7 @@ pub fn spec(id: &str) -> Option<Spec> {
             id: "C11",
             level: "exploration",
             rule: "generated PCI functions (vendor/device ids, BARs of every kind with sizes 16 B..2^63, assigned or not; 3-8 capabilities in any order with duplicates, foreign ids, cap_len 8..255, bar index 0..255, offset/length/multiplier boundary-biased over the full 32-bit range; two thirds of the runs start from a well-formed template and perturb it) through PciTransport::new over the direct configuration access and the real MmioCam (CAM, ECAM); independent 128-bit verdict valid/invalid/either; valid functions are then driven through every transport operation with strict register-discipline checking and a late-completing reset on drop; non-trivial = construction succeeded on a function judged valid",
-            batches: vec![b("functions", scen::c11::run, 30_000, 800_000)],
+            batches: vec![b("functions", scen::c11::run, 30_000, 2_000_000)],
             extras: vec![],
             assumptions: vec!["a common-configuration window that is 4- but not 8-byte aligned may be accepted or refused (the statement says 'suitably aligned')", "notifications are only issued for queues whose notify address lies inside the notification window"],
             real: vec!["PciTransport::new, get_bar_region, all Transport methods, Drop", "PciRoot::capabilities / bar_info, MmioCam"],
@@ -269,10 +293,10 @@ pub fn spec(id: &str) -> Option<Spec> {
             level: "exploration",
             rule: "hostile batches: a device that reports used ids that are not outstanding / repeated / out of range, arbitrary lengths, used-index jumps forwards and backwards, random response bytes and random configuration space, against the bare queue (well-behaved caller), OwningQueue and all 11 drivers over all 8 transport kinds; oracle = no platform-ledger violation (unshare/dealloc without live matching entry or twice), no slice beyond its buffer, no token handed out twice, every call ends in Ok/Err/clean panic; scribbled batches: the ordinary queue/blk/console/net/owning/vsock scenarios with their full functional oracles while the device overwrites the descriptor table and available ring at operation boundaries; non-trivial = a call completed under hostile input (hostile) / as in the base scenario (scribbled)",
             batches: vec![
-                b("hostile_queue", scen::c07::hostile_queue, 8000, 200_000),
-                b("hostile_owning", scen::c07::hostile_owning, 4000, 100_000),
-                b("hostile_drivers", scen::c07::hostile_drivers, 8000, 200_000),
-                b("queue_scribbled", scen::c07::queue_scribbled, 4000, 100_000),
+                b("hostile_queue", scen::c07::hostile_queue, 8000, 500_000),
+                b("hostile_owning", scen::c07::hostile_owning, 4000, 300_000),
+                b("hostile_drivers", scen::c07::hostile_drivers, 8000, 500_000),
+                b("queue_scribbled", scen::c07::queue_scribbled, 4000, 25_000),
                 b("blk_scribbled", scen::c07::blk_scribbled, 2000, 50_000),
                 b("console_scribbled", scen::c07::console_scribbled, 2000, 50_000),
                 b("net_scribbled", scen::c07::net_scribbled, 2000, 50_000),
@@ -296,8 +320,8 @@ pub fn spec(id: &str) -> Option<Spec> {
 
 pub const ALL: &[&str] = &["C01", "C02", "C03", "C04", "C05", "C06", "C07", "C08", "C09", "C10", "C11", "C12", "C13", "C14", "C15", "C16", "C17", "C18", "C19", "C20"];
 
-pub fn find_batch(prop: &str, batch: &str) -> Option<fn()> {
-    spec(prop)?.batches.iter().find(|b| b.name == batch).map(|b| b.f)
+pub fn find_batch(prop: &str, batch: &str) -> Option<crate::runner::Scn> {
+    spec(prop)?.batches.iter().find(|b| b.name == batch).map(|b| b.scn())
 }
 
 #[allow(dead_code)]
